@@ -56,11 +56,11 @@ Definition xmk (b : bst) (th : nat -> xpc) (l : list (nat * xres)) : xst := {| x
 Definition xfinish (s : xst) (b : bst) (t : nat) (r : xres) : xst := xmk b (upd (xthr s) t XN) (xlog s ++ [(t, r)]).
 Definition xgoto (s : xst) (b : bst) (t : nat) (p : xpc) : xst := xmk b (upd (xthr s) t p) (xlog s).
 
-(* one ring step of thread t on behalf of send_with_async; the setter's write (P3) is silent and rides on the access before it *)
-Definition async_ring_step (x : st) (t : nat) : st :=
-  let x1 := step N norm sgn x t in
-  match thr x1 t with P3 _ _ _ => step N norm sgn x1 t | _ => x1 end.
-Definition set_ring (x : rst) (r : st) : rst := {| ring := r; rthr := rthr x; rlog := rlog x; bad := bad x |}.
+(* one step of the ring operation `OpPub v` of thread t on behalf of send_with_async; the setter's write into the slot (ring pc P3)
+   has no hook in the code: it is silent and rides on the access before it *)
+Definition async_step (x : rst) (t : nat) : rst :=
+  let x1 := qstep x t in
+  match thr (ring x1) t with P3 _ _ _ => qstep x1 t | _ => x1 end.
 
 Definition xstep (s : xst) (t : nat) : xst :=
   let b := xb s in
@@ -103,20 +103,17 @@ Definition xstep (s : xst) (t : nat) : xst :=
         end
       else xgoto s (setq b x) t (XCRes j)
   | XAsyQ v =>
-      let r := async_ring_step (ring (q rst b)) t in
-      let b' := setq b (set_ring (q rst b) r) in
-      match thr r t with
-      | Idle =>
-          match last_res r with
-          | ROk _ len =>
-              match wake_async len with
-              | Some i => xgoto s b' t (XAsyW v (W0 i))
-              | None => xfinish s b' t (XAOk v)
-              end
-          | _ => xfinish s b' t (XAFull v)
-          end
-      | _ => xgoto s b' t (XAsyQ v)
-      end
+      let x := async_step (q rst b) t in
+      if rs_idle x t then
+        match rs_last x with
+        | RrRing (ROk _ len) =>
+            match wake_async len with
+            | Some i => xgoto s (setq b x) t (XAsyW v (W0 i))
+            | None => xfinish s (setq b x) t (XAOk v)
+            end
+        | _ => xfinish s (setq b x) t (XAFull v)
+        end
+      else xgoto s (setq b x) t (XAsyQ v)
   | XAsyW v w =>
       let '(m', w') := wstep (m rst b) w in
       match w' with
@@ -135,7 +132,7 @@ Definition xstart (s : xst) (t : nat) (o : xop) : xst :=
       | XoReserve j v => xgoto s (setq b (restart N norm sgn (q rst b) t (RoReserve j v))) t (XRes j)
       | XoSendRes j => xgoto s (setq b (restart N norm sgn (q rst b) t (RoSend j))) t (XSRes j)
       | XoCancelRes j => xgoto s (setq b (restart N norm sgn (q rst b) t (RoCancel j))) t (XCRes j)
-      | XoSendAsync v => xgoto s (setq b (set_ring (q rst b) (start (ring (q rst b)) t (OpPub v)))) t (XAsyQ v)
+      | XoSendAsync v => xgoto s (setq b (restart N norm sgn (q rst b) t (RoRing (OpPub v)))) t (XAsyQ v)
       end
   | _, _ => s
   end.
@@ -147,9 +144,8 @@ Definition xobs (s : xst) (t : nat) : list Z :=
   let b := xb s in
   match xthr s t with
   | XN => bobs b t
-  | XRes _ | XSRes _ | XCRes _ => qobsR (q rst b) t
+  | XRes _ | XSRes _ | XCRes _ | XAsyQ _ => qobsR (q rst b) t
   | XSResW _ w | XAsyW _ w => wobs (m rst b) t w
-  | XAsyQ _ => obs N norm (ring (q rst b)) t
   end.
 
 Definition xinit (q0 : rst) : xst := {| xb := cinit rst k q0; xthr := fun _ => XN; xlog := [] |}.
